@@ -183,8 +183,8 @@ def like (w : Nat → Int) (bin : Bool) (esc : Nat) (pat s : List Nat) : Option 
 
 `c29 extract` packs the weights the compiled `Sorter` returns for the runes `0..tableSize-1` of a
 collation into one natural number (32 bits per rune, two's complement, rune `r` in bits
-`[32r, 32r+32)`), and the single byte a one-byte character set encodes a rune to into another one
-(16 bits per rune, `0xFFFF` = the rune is not in the character set). -/
+`[32r, 32r+32)`), and for a one-byte character set the weights of the characters the bytes
+`0..255` decode to into another one (`0x80000000` = the byte is not a character of the set). -/
 
 /-- Go: `int32` default weight of a rune a collation has no entry for (`math.MaxInt32`). -/
 def defaultWeight : Int := 2147483647
@@ -193,9 +193,10 @@ def weightAt (tbl r : Nat) : Int :=
   let u := (tbl >>> (32 * r)) % 4294967296
   if u ≥ 2147483648 then (u : Int) - 4294967296 else (u : Int)
 
-def encAt (tbl r : Nat) : Option Nat :=
-  let u := (tbl >>> (16 * r)) % 65536
-  if u = 65535 then none else some u
+/-- weight of the character byte `b` of a one-byte character set decodes to (`none`: no character) -/
+def byteWeightAt (tbl b : Nat) : Option Int :=
+  let u := (tbl >>> (32 * b)) % 4294967296
+  if u = 2147483648 then none else some (if u ≥ 2147483648 then (u : Int) - 4294967296 else (u : Int))
 
 /-- The weight function of a regenerated table (runes beyond the table weigh `defaultWeight`; the
 per-table theorems only talk about strings whose runes are inside the table). -/
